@@ -381,6 +381,12 @@ def _history(a):
             _check_callers(kind, ctx)
     _check_callers(kind, ctx)
     _check_default_msg()
+    # the same construction once more must give an object that reads like the first one did at its birth, whatever was
+    # done to the first one since (shared singletons, memoised constructors / decoders)
+    again = _hview(kind, _hnew(kind, path, a[1], a[2], a[3], a[4], {}))
+    if again != out[:NVIEW[kind]]:
+        raise HarnessInvariant("building the same object again after the history gives %s, the first one started as %s: "
+                               "state is shared between objects" % (again[:4], out[:NVIEW[kind]][:4]))
     return out
 
 
@@ -1008,14 +1014,14 @@ def streams(tier, rng):
     yield "targeted_malformed", "exact", cases
     # 6b. live-object histories: every construction path, every public attribute / setter / sub-object edit, refused
     #     assignments, pack / value / generate_tlv in any order (up to 12 operations), observed after every step
-    cases = hist_systematic(rng)
+    cases = hist_systematic(rng) + hist_systematic(rng)
     if big:
-        cases += hist_systematic(rng) + hist_systematic(rng)
+        cases += hist_systematic(rng) + hist_systematic(rng) + hist_systematic(rng) + hist_systematic(rng)
     yield "histories_systematic", "exact", cases
     cases = []
     for kind in KINDS:
         for path in PATHS[kind]:
-            for _ in range(120 if big else 30):
+            for _ in range(400 if big else 90):
                 cases.append(hist_random(rng, kind, path))
     yield "histories_random", "exact", cases
     # 7. garbage
